@@ -179,6 +179,48 @@ def check_replace_cases(ctx, cases, cli_every=0):
                               nfi=(cli == expected or c["malformed"] or bool(d2)))
 
 
+def check_invert_context(ctx, cases):
+    """-v with context: the reported (non-matching) lines are printed unaltered, the context lines are exactly the
+    lines that contain matches and must carry the replacement — the same text `rg -r` prints for that line."""
+    import re
+    runs = 0
+    for c in cases:
+        if c["only"] or b"\x00" in c["template"] or "\x00" in c["pattern"] or c["malformed"]:
+            continue
+        with tempfile.TemporaryDirectory(dir=vlib.CACHE) as d:
+            f = os.path.join(d, "in")
+            open(f, "wb").write(c["input"])
+            base = [vlib.RG, "--no-config", "--color", "never", "-n", "--no-filename", "--no-mmap"] + (["--crlf"] if c["crlf"] else [])
+            pa = subprocess.run(base + ["-r", c["template"], "-e", c["pattern"], f], stdin=subprocess.DEVNULL,
+                                stdout=subprocess.PIPE, stderr=subprocess.PIPE)
+            pb = subprocess.run(base + ["-v", "-C", "1", "-r", c["template"], "-e", c["pattern"], f], stdin=subprocess.DEVNULL,
+                                stdout=subprocess.PIPE, stderr=subprocess.PIPE)
+            runs += 2
+            if pa.returncode == 2 or pb.returncode == 2 or b"\n" in c["template"] or b"\r" in c["template"]:
+                continue
+            term = b"\n"
+            replaced = {}
+            for x in pa.stdout.split(term):
+                mm = re.match(rb"^(\d+):(.*)$", x, re.S)
+                if mm:
+                    replaced[int(mm.group(1))] = mm.group(2)
+            orig = c["input"].split(b"\n")
+            bad = None
+            for x in pb.stdout.split(term):
+                mm = re.match(rb"^(\d+)([-:])(.*)$", x, re.S)
+                if not mm:
+                    continue
+                ln, sep, txt = int(mm.group(1)), mm.group(2), mm.group(3)
+                if sep == b"-" and ln in replaced and txt != replaced[ln]:
+                    bad = ("context line %d of the inverted search does not carry the replacement" % ln, txt, replaced[ln])
+                if sep == b":" and ln <= len(orig) and txt.rstrip(b"\r") != orig[ln - 1].rstrip(b"\r"):
+                    bad = ("line %d has no match but was altered" % ln, txt, orig[ln - 1])
+            if bad and len(replaced) == len([1 for x in pa.stdout.split(term) if re.match(rb"^\d+:", x)]):
+                ctx.violation("rg -v -C1 -r: " + bad[0], dict(kind="cli-invert-context", case=c, got=repr(bad[1]), expected=repr(bad[2]),
+                                                               inverted=repr(pb.stdout[:600]), plain=repr(pa.stdout[:600])))
+    ctx.cov["cli_invert_context_runs"] = runs
+
+
 def d2_replay(ctx):
     """the listed known finding, replayed on the real code"""
     c = dict(pattern="$", template=b"X", input=b"abc", crlf=False, only=False, malformed=False)
@@ -228,6 +270,7 @@ def run(ctx):
     n2 = ctx.count(1500)
     gen = [gen_replace_case(rng, rng.random() < 0.25) for _ in range(n2)]
     check_replace_cases(ctx, gen, cli_every=max(1, n2 // 150))
+    check_invert_context(ctx, corpus_cases() + gen[::max(1, n2 // 120)])
     ctx.assumptions += [
         "the matcher (regex-automata behind grep-regex) is a Section variable in the theorems; its captures are "
         "tabulated per case for the model and compared with the regex crate 1.10.6 by the oracle",
